@@ -47,3 +47,5 @@ def run(ctx):
     # every bit of a hashed key-flags subpacket is kept (shared with C05): dropped bits are hashed as 0 whatever the packet says
     from rules.tables import bitfield_parse_total
     bitfield_parse_total(ctx, P)
+    from rules.tables import revocation_class_decoded_exactly
+    revocation_class_decoded_exactly(ctx, P)
